@@ -43,6 +43,23 @@ let init () =
   register "join_poly_bbox" (function
     | w :: rest -> fuel srect (Join.poly_thick_bounding_box (pts_in rest) (z_in w))
     | _ -> "BAD-ARGS");
+  (* join_tri_pixels w align fill x1 y1 x2 y2 x3 y3 : pixels() of the styled triangle, x:y:c (1 stroke, 2 fill) *)
+  let al_in = function "0" -> Style.Inside | "1" -> Style.Center | _ -> Style.Outside in
+  let fill_in f = if f = "1" then Some (z_of_int 2) else None in
+  register "join_tri_pixels" (function
+    | [w; al; fl; a; b; c; d; e; f] ->
+        fuel (list_out (fun (p, c) -> cpt p ^ ":" ^ z_out c))
+          (JoinTri.jt_pixels ((pt a b, pt c d), pt e f) (z_in w) (al_in al) (fill_in fl))
+    | _ -> "BAD-ARGS");
+  register "join_tri_rects" (function
+    | [w; al; fl; a; b; c; d; e; f] ->
+        fuel (list_out (fun (r, c) -> z_out r.tl.px ^ ":" ^ z_out r.tl.py ^ ":" ^ z_out r.sz.sw ^ ":" ^ z_out c))
+          (JoinTri.jt_draw ((pt a b, pt c d), pt e f) (z_in w) (al_in al) (fill_in fl))
+    | _ -> "BAD-ARGS");
+  register "join_tri_bbox" (function
+    | [w; al; _; a; b; c; d; e; f] ->
+        fuel srect (JoinTri.jt_styled_bounding_box ((pt a b, pt c d), pt e f) (z_in w) (al_in al))
+    | _ -> "BAD-ARGS");
   (* ---- hook level ---- *)
   register "joinh_extents" (function
     | [a; b; c; d; w; so] ->
